@@ -456,18 +456,24 @@ func Plan(prop, tier string, seed uint64) []RunConfig {
 					W := workerChoices[r.Intn(len(workerChoices))]
 					c := RunConfig{Prop: prop, Workflow: w, Workers: W, Policy: genPolicy(r, estSteps(w, W)),
 						Stream: st, Chunk: ChunkSpec{Kind: "full"}, Fault: FaultSpec{Kind: "none"}, Runners: sc.spec, ReadYield: 1, Note: sc.name}
-					if k%4 == 3 {
-						// the sequential twin repeats the same history, one per scenario
+					// the environment knobs are drawn independently of each other, so
+					// that every pair of them coincides now and then
+					if r.Intn(4) == 0 {
+						// (the sequential twin repeats the same history)
 						c.Prelude = pre
 					}
-					if k%4 == 2 {
+					if r.Intn(5) == 0 {
+						c.Chunk = chunkFor(w, r)
+						c.ReadYield = []int{1, 3, 17}[r.Intn(3)]
+					}
+					if r.Intn(4) == 0 {
 						genCarrier(&c, r, true)
 					}
-					if k%8 == 5 {
+					if r.Intn(8) == 0 {
 						c.Companion = detPrelude(w, r)
 						c.Companion[0].SameSource = false
 					}
-					if k%8 == 1 && r.Intn(3) == 0 {
+					if r.Intn(12) == 0 {
 						c.Stdio = []string{"closed", "pipe-closed"}[r.Intn(2)]
 					}
 					out = append(out, c)
